@@ -235,6 +235,8 @@ def rand_noise(rng):
     """(kind, param, style): style 'each' = custom function applying the 1-qubit noise op on every wire of the evaluated operator;
     'before' = same but queued before re-applying the operator itself; 'partial' = partial_wires (1-wire gates only)."""
     kind = NOISE_KINDS[int(rng.integers(len(NOISE_KINDS)))]
+    if kind == "PauliX" and rng.random() < 0.7:  # unitary "noise" identical to a circuit gate is dropped by add_noise (tagged add_noise:noise-equals-gate): keep it rare
+        kind = "RZ"
     p = 0.0 if kind not in ("RX", "RZ", "PauliX") else float(rng.uniform(-2, 2))
     return (kind, p, ["each", "each", "before", "partial"][int(rng.integers(4))])
 
@@ -592,7 +594,7 @@ def part_zne(ctx, qp, gen, n_cases):
         scale = sorted(set([1.0] + [float(x) for x in (rng.integers(2, 6, size=2) if rng.random() < 0.5 else np.round(rng.uniform(1.2, 4.0, size=2), 1))]))
         if len(scale) < 2:
             scale = [1.0, 2.0, 3.0]
-        extr = ["richardson", "poly1", "exp"][int(rng.integers(3))]
+        extr = ["richardson", "poly1", "richardson", "poly1", "richardson", "poly1", "exp"][int(rng.integers(7))]
         path = "qnode" if rng.random() < 0.4 else "tape"
         info = {"wires": wires, "ops": gen.describe({"wires": wires, "dev_wires": None, "batch": None, "ops": ([prep] if prep else []) + specs, "meas": []})["ops"],
                 "observables": obs_specs, "scale_factors": scale, "extrapolate": extr, "path": path}
